@@ -110,6 +110,16 @@ func (v *VerifSyncNode) ProposeFromSyncer(data []byte, term uint64, index uint64
 	return p, fu, nil
 }
 
+// TakeProposed returns (and forgets) what was handed to raft by callers that propose on their own
+// (BeginTransferRemoteSnap, ApplyRemoteSnapshot): the harness commits or loses these like any other proposal.
+func (v *VerifSyncNode) TakeProposed() [][]byte {
+	v.cap.mu.Lock()
+	defer v.cap.mu.Unlock()
+	p := v.cap.proposed
+	v.cap.proposed = nil
+	return p
+}
+
 // FailNextPropose makes the next raft proposal fail with err (a dropped proposal).
 func (v *VerifSyncNode) FailNextPropose(err error) {
 	v.cap.mu.Lock()
